@@ -56,3 +56,18 @@ def eq_after_expression(finding, replay, facts):
 
 
 MATCHERS['eq_after_expression'] = eq_after_expression
+
+
+def set_arrival_order(finding, replay, facts):
+  """C20: only the DistinctListAgg order-of-arrival kernel; the two results must contain the
+  same elements (a different content would be another defect)."""
+  if replay.get('kernel') != 'k_distinct_list_agg_order':
+    return False
+  a, b = replay.get('rows_order_ab'), replay.get('rows_order_ba')
+  try:
+    return sorted(a[0][0]) == sorted(b[0][0]) and a != b
+  except Exception:  # noqa: BLE001
+    return False
+
+
+MATCHERS['set_arrival_order'] = set_arrival_order
